@@ -4,6 +4,7 @@ import (
 	"math"
 	"math/rand/v2"
 	"os"
+	"sort"
 	"strings"
 
 	"google.golang.org/protobuf/encoding/protowire"
@@ -127,10 +128,13 @@ func allFields(md protoreflect.MessageDescriptor) []protoreflect.FieldDescriptor
 	for i := 0; i < md.Fields().Len(); i++ {
 		fs = append(fs, md.Fields().Get(i))
 	}
+	n := len(fs)
 	protoregistry.GlobalTypes.RangeExtensionsByMessage(md.FullName(), func(xt protoreflect.ExtensionType) bool {
 		fs = append(fs, xt.TypeDescriptor())
 		return true
 	})
+	// the registry ranges in map order: sort, so that a seed names the same cases in every process
+	sort.Slice(fs[n:], func(i, j int) bool { return fs[n+i].Number() < fs[n+j].Number() })
 	return fs
 }
 
@@ -236,7 +240,9 @@ func isZeroBytes(b []byte) bool {
 	return true
 }
 
-func validUTF8(b []byte) bool { return strings.ToValidUTF8(string(b), "�") == string(b) && !strings.ContainsRune(string(b), '�') }
+func validUTF8(b []byte) bool {
+	return strings.ToValidUTF8(string(b), "�") == string(b) && !strings.ContainsRune(string(b), '�')
+}
 
 func sortInts(a []int) {
 	for i := 1; i < len(a); i++ {
